@@ -116,7 +116,7 @@ PROPS["C19"] = {
 }
 
 PROPS["C20"] = {
-    "parts": [{"kind": "bin", "bin": "c20"}],
+    "parts": [{"kind": "bin", "bin": "c20", "runs": [["--opt", "first=builtin"], ["--opt", "first=custom"]]}],
     "rule": "E2: all symbols of both masked codecs (complete) through mask/unmask and their laws; every sequence up to |alphabet|^n <= bound; P(n) at every length 0..2*spw+2 (thorough 4*spw+2) and every slice offset (5-bit: all 64 offsets, so every straddling position is hit by every symbol), through to_mask/to_unmask, in-place forms on fresh and offset-copied clones, twice, unmask∘mask, commutation with rev/comp/revcomp",
     "bound": {"quick": "|alphabet|^n <= 4e4; lengths 0..2*spw+2 x all offsets x P(n)", "thorough": "|alphabet|^n <= 1.2e6; lengths 0..4*spw+2"},
     "assumptions": COMMON_ASSUME + ["upper/lower twins as typed in bsv/src/spec.rs; '?' and '!' of the 4-bit codec are left open by the property", SEP],
@@ -282,3 +282,6 @@ PROPS["C02"]["rule"] += "; a text of the same length containing a byte that is n
 PROPS["C11"]["rule"] += "; terminals also for_each, collect, find, position, all, by_ref().take(1) then drain, each on the real iterator after every advance sequence"
 PROPS["C17"]["rule"] += "; G8: variant names of other shapes (lower-case incl. names starting with r, one-letter, digits/underscores, shared prefixes, long names)"
 PROPS["C18"]["rule"] += "; composition in a stream: (Seq, u32) tuples, Vec<Seq>, two values written back to back and read sequentially, deserialisation consumes exactly serialized_size bytes, JSON tuples"
+PROPS["C20"]["rule"] += "; Foreign: two harness-defined maskable codecs of the built-in widths (4, 5 bits) with different masking, used before and after the built-in ones in one process; the binary runs once per first-touch order (custom first / built-in first)"
+PROPS["C04"]["rule"] += "; the infallible conversions usize::from(Seq) / u8::from(&SeqSlice) of more bits than the integer has must not return a value"
+PROPS["C15"]["rule"] += "; Many: one amino acid with 255..258, 511..513, 65535..65537 codons (lengths 1..4), one with exactly one, one with two, three constructions each"
